@@ -237,6 +237,7 @@ pub fn decode_sink_fmt_case(u: &mut Unstructured) -> Option<crate::props::c16::S
             1 => crate::props::c16::SinkKind::Any,
             _ => crate::props::c16::SinkKind::Boxed,
         },
+        makewriter: u.int_in_range(0..=3u8).unwrap_or(0) == 0,
     })
 }
 
